@@ -19,6 +19,7 @@ from __future__ import annotations
 
 import collections
 import multiprocessing as mp
+import os
 import time
 
 from vf import c17_lib as L
@@ -97,6 +98,9 @@ def _stage(ctx: Ctx, name: str, tasks: list, total: dict,
            budget: float | None = None, chunksize: int = 1) -> list:
     """Run tasks on the pool, merge into `total`, record a part."""
     t0 = time.time()
+    if budget is not None:
+        # VERIF_C17_CAPSCALE shrinks every cap (dry runs of the orchestration)
+        budget = budget * float(os.environ.get('VERIF_C17_CAPSCALE', '1'))
     deadline = None if budget is None else t0 + budget
     part = W.new_result(name)
     extra = []
@@ -222,14 +226,15 @@ def _run(ctx: Ctx, total: dict, libs: tuple) -> None:
     tasks = []
     for lay in W.LAYOUTS[1:]:
         nA = len(W.seq_alphabet(lay, seed, False))
-        tasks += [('b2', lay, 2, i, False, seed) for i in range(nA)]
+        tasks += [('b2', lay, (i,), False, seed) for i in range(nA)]
     _stage(ctx, 'programs-two-statements', tasks, total,
            budget=15 if quick else 120)
     if not quick:
         tasks = []
         for lay in W.LAYOUTS[2:]:
             nA = len(W.seq_alphabet(lay, seed, True))
-            tasks += [('b2', lay, 3, i, True, seed) for i in range(nA)]
+            tasks += [('b2', lay, (i, j), True, seed)
+                      for i in range(nA) for j in range(nA)]
         _stage(ctx, 'programs-three-statements', tasks, total, budget=240)
 
     nO = len(L.operands(list(leaves)))
@@ -238,7 +243,7 @@ def _run(ctx: Ctx, total: dict, libs: tuple) -> None:
     _stage(ctx, 'programs-expressions-depth-2', tasks, total,
            budget=20 if quick else 240)
 
-    nch = 8
+    nch = 8 if quick else 32
     tasks = [('gd2', k, m, quick, c, nch) for k, m in W.gd2_tasks()
              for c in range(nch)]
     tasks += [('gd3', ii, k2, m2, quick, c, nch)
@@ -260,8 +265,8 @@ def _run(ctx: Ctx, total: dict, libs: tuple) -> None:
     tag, n2 = ('reduced', 3) if quick else ('full', 2)
     k2 = [k for k in ukeys if (tag == 'full' or k in W.REDUCED_RT)]
     P = L.placed_ops(n2, k2)
-    tasks = [('tr2', lib, n2, i, tag, excluded, seed)
-             for i in range(len(P)) for lib in libs]
+    tasks = [('tr2', lib, n2, i, tag, excluded, seed, c, 4)
+             for i in range(len(P)) for c in range(4) for lib in libs]
     _stage(ctx, 'translators-two-ops', tasks, total,
            budget=15 if quick else 240)
 
